@@ -51,6 +51,13 @@ def two_d(ctx, g):
         src = iter_source(b, b.rv_origin(s["rv"]), g)
         okc = src is not None and src[0] == "call" and src[1] == "covers::covers" and src[2][0][0] == "call" and src[2][0][1] == "derived::oriented_cover" \
             and src[2][0][2][0] == ("param", 1, b.debug.get(1, ""))
+        if okc:
+            bound = norm(b.def_origin(src[2][1]), g) if src[2][1][0] == "local" else src[2][1]
+            okbnd = contains(bound, lambda x: isinstance(x, tuple) and x and x[0] == "call" and x[1].endswith("orbit_types_2d") and x[2] == (src[2][0],)) and \
+                contains(bound, lambda x: isinstance(x, tuple) and x and x[0] == "call" and x[1].endswith("Iterator::max"))
+            ctx.ob("T4-sheet-bound-2d", b.name, "covers(.., max branching over all 2-orbits)", "ok" if okbnd else "violation",
+                   "the sheet bound is the maximal branching number over orbit_types_2d(oriented cover) (all index pairs)" if okbnd else
+                   "the sheet bound passed to covers() is not the maximum branching number over all 2-orbit types of the oriented cover (%s): rotation centres of the skipped index pairs are never unfolded, no toroidal cover is found" % show(bound, 1)[:80], b.span_of(bi, si))
         ctx.ob("T9-cover-of-oriented-cover-2d", b.name, "cov in covers(oriented_cover(ds), _)", "ok" if okc else "violation",
                "candidates are covers of the oriented cover of the input" if okc else "returned value is not an element of covers(&oriented_cover(ds), _): " + (show(src, 1)[:80] if src else "?"), b.span_of(bi, si))
 
